@@ -165,7 +165,7 @@ def reads_of(ev):
     return out
 
 
-def consumer_kind(arm_body, read_node):
+def consumer_kind(arm_body, read_node, _depth=0):
     """Kind tag of a primitive read: the nearest enclosing call that interprets the value (pool.get_x / labels.try_get / from_atype)."""
     chain = H.parents_of(arm_body, read_node) or []
     for p in reversed(chain):
@@ -183,9 +183,28 @@ def consumer_kind(arm_body, read_node):
             if nm in ("into", "from", "try_from", "try_into"):
                 return "conv:" + (p.get("ty") or "")
             return None
+        if p.get("k") == "let" and p["pat"].get("k") == "bind" and _depth < 3:
+            # `let index = reader.read_u16()?; pool.get_class(index)?`: the value is interpreted where the local is used
+            lid = p["pat"]["id"]
+            for use in H.walk(arm_body):
+                if use.get("k") == "path" and use["res"].get("r") == "local" and use["res"].get("id") == lid:
+                    k2 = consumer_kind(arm_body, use, _depth + 1)
+                    if k2:
+                        return k2
+            return None
         if p.get("k") in ("let", "block", "match", "if"):
             return None
     return None
+
+
+def payload_reads(ev, match_node):
+    """reads executed on the evaluated path without the read of the tag itself: the tag is read either inside the match scrutinee or
+    before the match (`let tag = reader.read_u8()?; match tag {..}`) - in the latter case it is not part of the evaluated arm at all."""
+    rs = reads_of(ev)
+    in_scrut = [r for r in rs if any(x is r[3] for x in H.walk(match_node["scrut"]))]
+    if in_scrut:
+        return [r for r in rs if r not in in_scrut]
+    return rs
 
 
 def attr_arms(match_node):
